@@ -466,6 +466,41 @@ def prove_upload_gate(src_root, ex: Explorer):
                       'an entitled request must create (through _add_upload, for the requesting user) and queue the upload')
     ex.run(gate, 'upload-gate')
 
+    def existing(ctx: Ctx):
+        """a repeated PeerTransferQueue / PeerTransferRequest for an upload that is ALREADY in the list: whether the file is (still) shared
+        must be asked for the requesting user - friends, named users and share modes may have changed since the upload was added; when
+        it is no longer shared with that user the upload fails and the request is refused, it is never queued again"""
+        it = mk(src_root, ctx)
+        which = ctx.choose(2, 'message')
+        shared = ctx.choose(2, 'shared-with-user') == 1
+        sname = ['FAILED', 'COMPLETE', 'QUEUED', 'ABORTED'][ctx.choose(4, 'state')]
+        w = mk_transfer_manager(it, ctx, blocked=False)
+        calls, asked = [], []
+        st = Stub('state', VALUE=enum(it, 'transfer.state', 'TransferState.State', sname),
+                  queue=Recorder('queue', fn=lambda it2, a, k: calls.append('queue'), is_async=True),
+                  fail=Recorder('fail', fn=lambda it2, a, k: calls.append('fail'), is_async=True))
+        t = Stub('upload', state=st)
+        it.hooks[f'{TM}:TransferManager.find_transfer'] = lambda it2, f, a, k: t
+
+        def find_shared_item(it2, a, k):
+            asked.append(list(a) + list(k.values()))
+            return Stub('item') if shared else None
+        w['shares'].attrs['find_shared_item'] = Recorder('find_shared_item', fn=find_shared_item, is_async=True)
+        fn = sstr(ctx, 'filename')
+        name = ['queue', 'request'][which]
+        if which == 0:
+            run(it, it.getattr(w['mgr'], '_on_peer_transfer_queue'), Stub('PeerTransferQueue', filename=fn), w['conn'])
+        else:
+            up = enum(it, TMODEL, 'TransferDirection', 'UPLOAD')
+            run(it, it.getattr(w['mgr'], '_on_peer_transfer_request'), Stub('PeerTransferRequest', filename=fn, ticket=5, direction=up.value, filesize=None), w['conn'])
+        ctx.prove(f'C08.upload.{name}.existing-asks-for-user', len(asked) == 1 and asked[0][0] is fn and any(x is w['user'] for x in asked[0][1:]),
+                  'whether the file of an existing upload is shared must be asked for the REQUESTING user (entitlements change after the upload was added)')
+        if not shared:
+            ctx.prove(f'C08.upload.{name}.existing-unentitled[{sname}]', 'queue' not in calls and 'fail' in calls and
+                      any(m.attrs.get('reason') == 'File not shared.' for m in w['queued']),
+                      'an existing upload whose file is no longer shared with the user must fail and be refused, never queued again')
+    ex.run(existing, 'existing-upload')
+
     def add_upload(ctx: Ctx):
         """_add_upload(user, path): the transfer exists only after get_shared_item(path, user) returned (it raises for unknown, vanished and
         locked files); it is an upload for that user and path with the item's local path"""
@@ -792,7 +827,20 @@ def cls_builtin(it, name):
     return BUILTIN_CLASSES[name]
 
 
-PARTS = {'locked': prove_locked, 'query': prove_query, 'replies': prove_replies, 'search': prove_search_gate, 'uploads': prove_upload_gate,
+def prove_owner(src_root, ex: Explorer):
+    """INV-owner (every item is held by the directory it points to, the INNERMOST shared directory containing it) is what makes the
+    lock predicate of an item the lock predicate of its real directory.  It is established by the scan and by the moves of
+    add_shared_directory / remove_shared_directory: the C07 obligations about them are discharged here as well."""
+    from contracts import C07
+    C07.prove_dirs(src_root, ex)
+    C07.prove_scan(src_root, ex)
+    C07.prove_scan_directory(src_root, ex)
+    for ob in ex.obligations:
+        if ob.name.startswith('C07.'):
+            ob.name = 'C08.owner.' + ob.name[4:]
+
+
+PARTS = {'owner': prove_owner, 'locked': prove_locked, 'query': prove_query, 'replies': prove_replies, 'search': prove_search_gate, 'uploads': prove_upload_gate,
          'evaluate': prove_evaluate, 'changes': prove_changes}
 
 
